@@ -212,6 +212,9 @@ def s_history(draw, tier):
     # make re-parses likely: repeat earlier ops
     extra = draw(st.lists(st.integers(0, len(ops) - 1), min_size=0, max_size=10))
     ops = ops + [dict(ops[k]) for k in extra]
+    # immediate repeats: the same operation on the same bytes twice in a row (state keyed on "the last frame")
+    for k in sorted(set(draw(st.lists(st.integers(0, len(ops) - 1), min_size=0, max_size=6))), reverse=True):
+        ops.insert(k + 1, dict(ops[k]))
     return {"items": items, "ops": ops, "qoe": draw(st.sampled_from([0, 1]))}
 
 
@@ -293,6 +296,11 @@ def s_sched(draw, tier):
     if k == 0:
         # same identity twice: shared per-identity state would collide
         jobs[1] = dict(jobs[0], lm=3 - jobs[0]["lm"])
+    elif k == 2 and draw(st.booleans()):
+        # two boundary-sized nested messages (thousands of index tuples each)
+        for j, big in enumerate(draw(st.lists(st.sampled_from(["1059", "1065", "4076_025", "4076_201"]), min_size=2, max_size=2))):
+            jobs[j] = dict(jobs[j], payload=draw(gen.messages(big, "max"))["payload"], mut=None, how="msg")
+        jobs = jobs[:2]
     elif k == 1:
         c = draw(st.sampled_from(MSM_IDS).flatmap(lambda i: gen.messages(i, "small")))
         sib = sibling(c["ident"], draw(st.integers(0, 5)))
@@ -342,6 +350,9 @@ def o_stress(case):
 def s_stress(draw, tier):
     n = draw(st.integers(3, 8))
     ps = [draw(gen.any_message("small"))["payload"] for _ in range(n)]
+    # boundary-sized nested groups: many distinct index tuples in one process (bounded caches get evicted mid-parse)
+    for big in draw(st.lists(st.sampled_from(["1059", "1065", "4076_025", "4076_026", "4076_201", "1302", "1033", "1077"]), min_size=2, max_size=3)):
+        ps.append(draw(gen.messages(big, "max"))["payload"])
     return {"payloads": ps, "reps": 3 if tier == "quick" else 12}
 
 
